@@ -32,6 +32,7 @@
 #include <math.h>
 #include <stdio.h>
 #include <string.h>
+#include <strings.h>
 #include <limits.h>
 
 void print_key_file(const econf_file key_file)
@@ -138,23 +139,20 @@ econf_err getStringValueNum(econf_file key_file, size_t num, char **result) {
 }
 
 econf_err getBoolValueNum(econf_file key_file, size_t num, bool *result) {
-  char *value, *tmp;
-  tmp = strdup(key_file.file_entry[num].value);
-  value = toLowerCase(tmp);
-  size_t hash = hashstring(value);
+  const char *value = key_file.file_entry[num].value;
   econf_err err = ECONF_SUCCESS;
 
-  if ((*value == '1' && strlen(tmp) == 1) || hash == YES || hash == TRUE)
+  if (!strcmp(value, "1") || !strcasecmp(value, "yes") ||
+      !strcasecmp(value, "true"))
     *result = true;
-  else if ((*value == '0' && strlen(tmp) == 1) || !*value ||
-	   hash == NO || hash == FALSE)
+  else if (!strcmp(value, "0") || !*value ||
+	   !strcasecmp(value, "no") || !strcasecmp(value, "false"))
     *result = false;
-  else if (hash == KEY_FILE_NULL_VALUE_HASH)
+  else if (!strcasecmp(value, KEY_FILE_NULL_VALUE))
     err = ECONF_KEY_HAS_NULL_VALUE;
   else
     err = ECONF_PARSE_ERROR;
 
-  free(tmp);
   return err;
 }
 
